@@ -6,6 +6,7 @@ import (
 	"bytes"
 	"fmt"
 	"math"
+	"math/big"
 	"strconv"
 )
 
@@ -68,7 +69,30 @@ func Equal(a, b *Value) bool {
 }
 
 // Diff returns "" if equal, else a short description of the first difference.
-func Diff(a, b *Value) string {
+func Diff(a, b *Value) string { return diff(a, b, false) }
+
+// DiffLoose is Diff with numbers compared by mathematical value only (type
+// and overflow flag ignored): "numerically equal", as after a text round trip.
+func DiffLoose(a, b *Value) string { return diff(a, b, true) }
+
+func isNumKind(k Kind) bool { return k == Int || k == Uint || k == Float }
+
+func numRat(v *Value) *big.Rat {
+	switch v.K {
+	case Int:
+		return new(big.Rat).SetInt64(v.I)
+	case Uint:
+		return new(big.Rat).SetInt(new(big.Int).SetUint64(v.U))
+	}
+	r := new(big.Rat)
+	if math.IsInf(v.F, 0) || math.IsNaN(v.F) {
+		return nil
+	}
+	r.SetFloat64(v.F)
+	return r
+}
+
+func diff(a, b *Value, loose bool) string {
 	type pair struct {
 		a, b *Value
 		path string
@@ -81,6 +105,23 @@ func Diff(a, b *Value) string {
 		if x == nil || y == nil {
 			if x != y {
 				return p.path + ": nil vs non-nil"
+			}
+			continue
+		}
+		if loose && isNumKind(x.K) && isNumKind(y.K) {
+			// A float is denoted by any text that reads back as that float64;
+			// so when either side is a float both are compared as float64.
+			// Two integers compare exactly.
+			if x.K == Float || y.K == Float {
+				fx, fy := asFloat(x), asFloat(y)
+				if fx != fy {
+					return fmt.Sprintf("%s: number %v vs %v", p.path, numStr(x), numStr(y))
+				}
+				continue
+			}
+			rx, ry := numRat(x), numRat(y)
+			if rx == nil || ry == nil || rx.Cmp(ry) != 0 {
+				return fmt.Sprintf("%s: number %v vs %v", p.path, numStr(x), numStr(y))
 			}
 			continue
 		}
@@ -129,6 +170,26 @@ func Diff(a, b *Value) string {
 		}
 	}
 	return ""
+}
+
+func asFloat(v *Value) float64 {
+	switch v.K {
+	case Int:
+		return float64(v.I)
+	case Uint:
+		return float64(v.U)
+	}
+	return v.F
+}
+
+func numStr(v *Value) string {
+	switch v.K {
+	case Int:
+		return fmt.Sprintf("int %d", v.I)
+	case Uint:
+		return fmt.Sprintf("uint %d", v.U)
+	}
+	return fmt.Sprintf("float %v", v.F)
 }
 
 func clipRaw(b []byte) []byte {
